@@ -59,13 +59,15 @@ def synthetic_roadm_variety(rng):
                 it['roadm-osnr'] = G.pick(rng, [41, 38, 35])
             out.append(it)
         return out
-    return {'type_variety': 'vf_impair', POLICIES[0]: G.pick(rng, [-20, -18, 0, -25]), 'add_drop_osnr': 38, 'pmd': 0,
-            'pdl': 0, 'restrictions': {'preamp_variety_list': [], 'booster_variety_list': []},
-            'roadm-path-impairments': [
-                {'roadm-path-impairments-id': 0, 'roadm-express-path': rng_items('express')},
+    profiles = [{'roadm-path-impairments-id': 0, 'roadm-express-path': rng_items('express')},
                 {'roadm-path-impairments-id': 1, 'roadm-add-path': rng_items('add')},
                 {'roadm-path-impairments-id': 2, 'roadm-drop-path': rng_items('drop')},
-                {'roadm-path-impairments-id': 3, 'roadm-express-path': rng_items('express')}]}
+                {'roadm-path-impairments-id': 3, 'roadm-express-path': rng_items('express')}]
+    if rng.random() < 0.5:
+        rng.shuffle(profiles)        # ids identify the profiles, the order of the list carries no meaning
+    return {'type_variety': 'vf_impair', POLICIES[0]: G.pick(rng, [-20, -18, 0, -25]), 'add_drop_osnr': 38, 'pmd': 0,
+            'pdl': 0, 'restrictions': {'preamp_variety_list': [], 'booster_variety_list': []},
+            'roadm-path-impairments': profiles}
 
 
 def policy_value(rng, pol):
@@ -100,7 +102,8 @@ def build(rng):
                 outs = [G.egress_degree_uid(e['uid'], t, typ) for f, t in cx if f == e['uid'] and not t.startswith('trx')]
                 if ins and outs:
                     e['params']['per_degree_impairments'] = [{'from_degree': G.pick(rng, ins),
-                                                              'to_degree': G.pick(rng, outs), 'impairment_id': 3}]
+                                                              'to_degree': G.pick(rng, outs),
+                                                              'impairment_id': G.pick(rng, [3, 0, 0])}]
     equipment = G.make_equipment(ej)
     network = G.make_network(tj, equipment)
     SimParams.set_params({})
